@@ -95,6 +95,14 @@ func (tr *Tr) lookupLocal(env *Env, name string) (EVal, bool) {
 				var best *localRef
 				for k := range refs {
 					r := &refs[k]
+					// a value computed later in the loop header itself is not available where the invariant is evaluated
+					if ins, isIns := r.v.(ssa.Instruction); isIns && hdr != nil && b == hdr && ins.Block() == hdr {
+						if _, isPhi := r.v.(*ssa.Phi); !isPhi {
+							if _, done := fr.env[r.v]; !done {
+								continue
+							}
+						}
+					}
 					if r.blk == b && (b != fr.cur || hdr != nil || r.idx < fr.curIdx) {
 						if best == nil || r.idx > best.idx {
 							best = r
